@@ -26,10 +26,11 @@ def generate(rng, tier):
     seekable = stream_cfgs_for(lambda k: k != "ofb")
     n = 200 if tier == "quick" else 5000
     for i in range(n):
-        bs, w, dm, kind = seekable[i % len(seekable)] if i < 2 * len(seekable) else rng.choice(seekable)
+        bs, w, dm, kind = pick_stream(rng, i, lambda k: k != "ofb")
         cbits = 128 if kind == "belt" else ctr_params(kind)[0]
         end_pos = (2 ** cbits - 1) * bs           # first byte position that does not exist
-        key, iv = rbytes_n(rng, 8), boundary_iv(rng, bs, kind)
+        key = rbytes_n(rng, 8)
+        iv = stream_iv(rng, bs, kind, key, dm)
         tc = oracle.Toy(key, dm)
         c = Case("c10_%d" % i, "stream", bs, w, dm, tags=dict(kind=kind))
         c.op("new o %s new %s %s" % (kind, hx(key), hx(iv)))
